@@ -18,6 +18,20 @@ EnumSet(S) ==   \* some enumeration of a finite set (order irrelevant: results a
       F(T) == IF T = {} THEN <<>> ELSE LET x == CHOOSE y \in T : TRUE IN <<x>> \o F(T \ {x})
   IN F(S)
 
+RECURSIVE JoinWith(_, _)
+JoinWith(ss, sep) ==
+  IF ss = <<>> THEN <<>> ELSE IF Len(ss) = 1 THEN ss[1] ELSE ss[1] \o sep \o JoinWith(Tail(ss), sep)
+
+(* What the dynamic completion functions are called with.  The harness's   *)
+(* functions answer their fixed list plus one candidate that spells out the *)
+(* arguments they received: ArgCompletionsFn(target, previousArgs, partial) *)
+(* gets the target shell, the text collected so far at the level reached    *)
+(* and the typed word; ValueCompletionsFn(target, partial) gets the target  *)
+(* shell and what was typed after the first "=".                            *)
+TargetAtoms(target) == IF target = "bash" THEN <<"b","a","s","h">> ELSE <<"z","s","h">>
+ArgEcho(target, prev, w) == <<"@">> \o TargetAtoms(target) \o <<"@">> \o JoinWith(prev, <<",">>) \o <<"@">> \o w
+ValEcho(target, w) == LET e == FirstIdx(w, EQ, 1) IN Drop(w, e) \o <<"@">> \o TargetAtoms(target)
+
 StripDashes(w) ==   \* strings.TrimPrefix(strings.TrimPrefix(w, "-"), "-")
   IF Len(w) >= 1 /\ w[1] = DASH
   THEN (IF Len(w) >= 2 /\ w[2] = DASH THEN Drop(w, 2) ELSE Drop(w, 1))
@@ -49,7 +63,8 @@ OptionCandidates(cfg, n, w, target) ==
       valKeys == IF hasEq THEN {k \in keys : k # <<DASH>> /\ IsPfx(k, partial)} ELSE {}
       valsOf(k) ==
         LET o  == OptOfKey(cfg, n, k)
-            sv == Suggested(cfg, o) \o Opt(cfg, o).suggfn   \* static suggestions, then the dynamic function's results
+            \* static suggestions, then the dynamic function's results (its fixed list and the echo of its arguments)
+            sv == Suggested(cfg, o) \o (IF Opt(cfg, o).suggfn = <<>> THEN <<>> ELSE Opt(cfg, o).suggfn \o <<ValEcho(target, w)>>)
             full(e) == <<DASH, DASH>> \o k \o <<EQ>> \o e
             keep == SelectSeq(sv, LAMBDA e : IsPfx(w, full(e)))
         IN [j \in 1..Len(keep) |-> IF target = "bash" THEN keep[j] ELSE full(keep[j])]
@@ -67,16 +82,16 @@ OptionCandidates(cfg, n, w, target) ==
   ELSE base
 
 (* Candidates for a last word that does not start with "-" at node n.       *)
-WordCandidates(cfg, n, w, target) ==
+WordCandidates(cfg, n, w, target, prev) ==
   LET cmds == EnumSet({Node(cfg, c).name : c \in {c \in Children(cfg, n) : IsPfx(w, Node(cfg, c).name)}})
       sugg == SelectSeq(Node(cfg, n).sugg, LAMBDA e : IsPfx(w, e))
-      dyn  == IF Node(cfg, n).dynfn THEN Node(cfg, n).dynout ELSE <<>>
+      dyn  == IF Node(cfg, n).dynfn THEN Node(cfg, n).dynout \o <<ArgEcho(target, prev, w)>> ELSE <<>>
       base == cmds \o sugg \o dyn
   IN IF Len(base) = 1 /\ target = "bash" THEN <<base[1] \o <<" ">>>> ELSE base
 
-Candidates(cfg, n, w, target) ==
+Candidates(cfg, n, w, target, prev) ==
   IF Len(w) >= 1 /\ w[1] = DASH THEN OptionCandidates(cfg, n, w, target)
-  ELSE WordCandidates(cfg, n, w, target)
+  ELSE WordCandidates(cfg, n, w, target, prev)
 
 (* Parse the earlier words: stop as soon as the last word is about to be    *)
 (* looked at as a fresh token.                                             *)
@@ -98,15 +113,15 @@ CompOutcome(cfg, orc, words0, target) ==
       ws == IF words = <<>> THEN <<>> ELSE Tail(words)   \* the first word is the program name
       st == CompRunFrom(cfg, orc, ws, InitState(cfg, orc, ws))
   IN
-  IF st.miss THEN [miss |-> TRUE, failed |-> FALSE, reached |-> FALSE, node |-> 0, comps |-> <<>>]
-  ELSE IF st.err.kind # "" THEN [miss |-> FALSE, failed |-> TRUE, reached |-> FALSE, node |-> st.node, comps |-> <<>>]
+  IF st.miss THEN [miss |-> TRUE, failed |-> FALSE, reached |-> FALSE, node |-> 0, comps |-> <<>>, prev |-> <<>>]
+  ELSE IF st.err.kind # "" THEN [miss |-> FALSE, failed |-> TRUE, reached |-> FALSE, node |-> st.node, comps |-> <<>>, prev |-> <<>>]
   ELSE IF ws = <<>> THEN
-       [miss |-> FALSE, failed |-> FALSE, reached |-> TRUE, node |-> 1, comps |-> Candidates(cfg, 1, <<>>, target)]
+       [miss |-> FALSE, failed |-> FALSE, reached |-> TRUE, node |-> 1, comps |-> Candidates(cfg, 1, <<>>, target, <<>>), prev |-> <<>>]
   ELSE IF st.phase = "scan" /\ st.i = Len(ws) THEN
        [miss |-> FALSE, failed |-> FALSE, reached |-> TRUE, node |-> st.node,
-        comps |-> Candidates(cfg, st.node, ws[Len(ws)], target)]
+        comps |-> Candidates(cfg, st.node, ws[Len(ws)], target, st.text[st.node]), prev |-> st.text[st.node]]
   ELSE \* the last word was consumed as a value, or lies behind `--` / the require-order stop point
-       [miss |-> FALSE, failed |-> FALSE, reached |-> FALSE, node |-> st.node, comps |-> <<>>]
+       [miss |-> FALSE, failed |-> FALSE, reached |-> FALSE, node |-> st.node, comps |-> <<>>, prev |-> <<>>]
 
 (* Observed completion outcome r against the expected one.                 *)
 CompDiff(cfg, e, r) ==
@@ -125,10 +140,10 @@ CompDiff(cfg, e, r) ==
 (* the last word is still interpreted (reached = TRUE).                    *)
 DeclOptions(cfg, n, w) ==   \* declared names/aliases of the level whose name starts with the typed text
   {k \in Keys(cfg, n) : IsPfx(StripDashes(w), k)}
-DeclWords(cfg, n, w) ==
+DeclWords(cfg, n, w, target, prev) ==
   {Node(cfg, c).name : c \in {c \in Children(cfg, n) : IsPfx(w, Node(cfg, c).name)}}
   \cup {e \in Rng(Node(cfg, n).sugg) : IsPfx(w, e)}
-  \cup (IF Node(cfg, n).dynfn THEN Rng(Node(cfg, n).dynout) ELSE {})
+  \cup (IF Node(cfg, n).dynfn THEN Rng(Node(cfg, n).dynout) \cup {ArgEcho(target, prev, w)} ELSE {})
 
 \* name part of an offered option candidate ("--k" or "--k=" or "--k=<hint>")
 CandName(c) ==
@@ -148,7 +163,7 @@ CandidatesExact(cfg, orc, words0, target) ==
              \* every declared name with the typed prefix is offered, and nothing else
              /\ {CandName(e.comps[j]) : j \in 1..Len(e.comps)} \ {<<>>}
                    = DeclOptions(cfg, e.node, w) \ (IF w = <<DASH>> THEN {} ELSE {<<DASH>>})
-       ELSE {TrimSpace(e.comps[j]) : j \in 1..Len(e.comps)} = DeclWords(cfg, e.node, w)
+       ELSE {TrimSpace(e.comps[j]) : j \in 1..Len(e.comps)} = DeclWords(cfg, e.node, w, target, e.prev)
 
 (* Every offered option or command is accepted by the parser at that place *)
 OfferedAccepted(cfg, orc, words0, target) ==
